@@ -111,6 +111,9 @@ func structural(msg []byte, seids []uint64) []mutant {
 		if n.plen > 0 && !grouped[n.typ] {
 			add(splice(msg, end-1, end, nil, append(append([]int{}, n.parents...), n.off)), false, "payload of IE type %d at %d shortened by one octet", n.typ, n.off)
 			add(splice(msg, end, end, []byte{0xff}, append(append([]int{}, n.parents...), n.off)), false, "payload of IE type %d at %d extended by one octet", n.typ, n.off)
+			// longer over-long values (a decoder that copes with one spare octet may still index past a fixed-size field)
+			add(splice(msg, end, end, []byte{0x00, 0x00}, append(append([]int{}, n.parents...), n.off)), false, "payload of IE type %d at %d extended by two octets", n.typ, n.off)
+			add(splice(msg, end, end, []byte{0x01, 0x02, 0x03, 0x04, 0x05, 0x06, 0x07, 0x08}, append(append([]int{}, n.parents...), n.off)), false, "payload of IE type %d at %d extended by eight octets", n.typ, n.off)
 		}
 	}
 	// header
